@@ -124,11 +124,13 @@ Handler::Handler( std::ostream& os, std::ostream& error_os,
 
    handleStartFlags( flag_set, txt1, txt2);
 
-   if (flag_set & hfUsageHidden)
-      mpUsageParams->setPrintHidden();
-
+   // add the argument first: a boolean argument sets the inverse of the value
+   // that its destination variable has when the argument is created
    if (flag_set & hfArgHidden)
       mpUsageParams->addArgumentPrintHidden( *this, "print-hidden");
+
+   if (flag_set & hfUsageHidden)
+      mpUsageParams->setPrintHidden();
 
 } // Handler::Handler
 
@@ -1268,11 +1270,12 @@ void Handler::handleStartFlags( int flag_set, IUsageText* txt1,
    if (flag_set & hfHelpArgFull)
       addArgumentHelpArgument( "help-arg-full", true);
 
-   if (flag_set & hfUsageDeprecated)
-      mpUsageParams->setPrintDeprecated();
-
+   // add the argument first, see the argument 'print-hidden'
    if (flag_set & hfArgDeprecated)
       mpUsageParams->addArgumentPrintDeprecated( *this, "print-deprecated");
+
+   if (flag_set & hfUsageDeprecated)
+      mpUsageParams->setPrintDeprecated();
 
    if (flag_set & hfUsageShort)
       mpUsageParams->addArgumentUsageShort( *this, "help-short");
